@@ -413,7 +413,7 @@ def gen_cases(ctx, widened=False):
     plist = []
     for k, q in enumerate(PRELUDES):
         plist.append(([q], None))
-    n_pairs = 24 if ctx.tier == 'quick' else 400
+    n_pairs = 24 if ctx.tier == 'quick' else 240
     for k in range(n_pairs):
         plist.append(([rng.choice(PRELUDES), rng.choice(PRELUDES)], None))
     for k in range(12 if ctx.tier == 'quick' else 120):
@@ -563,6 +563,106 @@ def shrink(ctx, case, still_fails, budget=8):
     return cur
 
 
+def tie_rule(ctx):
+    """T tie for the decisions of calculate_normal_incidence_matrix (call flags, sign clamp): translate ->
+    coq/C12/gen/IncidenceRule.v -> theorems of C12/PropsRule.v re-checked -> translator validation (generated
+    rule evaluated in Coq vs the extracted clamp applied in Python).  Never by itself a violation: when the
+    region cannot be read, or the translated decisions are not the model's for every integer (e.g. at a dot
+    product of exactly 0, which convex cells never produce), the committed baseline rule is used and the
+    correspondence check / oracle decide (BUILDERS_R5 policy)."""
+    import c12_incidence
+    gen = lib.COQ / 'C12' / 'gen' / 'IncidenceRule.v'
+    base = lib.COQ / 'C12' / 'baseline' / 'IncidenceRule.v.txt'
+    tr, mode, reason = None, 'T', ''
+    try:
+        tr, consumed = c12_incidence.translate(str(lib.REPO))
+        ctx.sources.update(consumed)
+        text = c12_incidence.emit(tr)
+    except (c12_incidence.TranslateError, SyntaxError, OSError, RecursionError, ValueError, KeyError, TypeError,
+            AttributeError, IndexError) as e:
+        mode, reason = 'H', 'translator could not read the region: %s: %s' % (type(e).__name__, e)
+        text = base.read_text()
+    keep, cmd = ctx.obligations[:], getattr(ctx, 'checker_cmd', None)
+    new, ok = [], False
+    for attempt in range(2):
+        lib.write_if_changed(gen, text)
+        del ctx.obligations[:]
+        ok, log = ctx.build_props('C12/PropsRule.v', scan_dirs=[lib.COQ / 'C12'])
+        ok = c10.fix_obligations(ctx) and bool(ctx.obligations)
+        new = ctx.obligations[:]
+        if ok and mode == 'T':
+            # translator validation: the generated definition evaluated in Coq vs the extracted clamp in Python
+            ds = [-10 ** 12, -7, -2, -1, 0, 1, 2, 5, 10 ** 12] + [ctx.rng.randint(-50, 50) for _ in range(12)]
+            rc, out, err = ctx.coq_eval('RuleProbe', '\n'.join([
+                'From Coq Require Import List ZArith.', 'Import ListNotations.',
+                'From FV.C12.gen Require Import IncidenceRule.', 'Open Scope Z_scope.',
+                'Goal True. idtac "@@ vals". Abort.',
+                'Eval vm_compute in map sgn_rule %s.' % lib.coq_list([lib.coq_Z(d) for d in ds])]) + '\n')
+            got = [int(x.replace('(', '').replace(')', '')) for x in
+                   re.findall(r'\(?-?\d+\)?', lib.parse_marked(out).get('vals', '').split(': list')[0].split('=', 1)[-1])] \
+                if rc == 0 else None
+            exp = [c12_incidence.apply_python(tr, d) for d in ds]
+            ctx.notes['rule_translator_validation'] = {'values': len(ds), 'agree': got == exp}
+            if got != exp:
+                ok, reason = False, 'translator validation failed (Coq %s, Python %s)' % (got, exp)
+        if ok or mode == 'H':
+            break
+        mode = 'H'
+        reason = reason or ('the translated decisions %s are not the model\'s for every integer dot product' % (tr,))
+        text = base.read_text()
+    ctx.obligations[:] = keep
+    if cmd is not None:
+        ctx.checker_cmd = cmd + '; the same for C12/PropsRule.v'
+    if not ok:
+        ctx.notes['tie_rule'] = 'unavailable (%s; the baseline rule did not build either)' % reason
+        ctx.log('rule tie unavailable:', reason)
+        return
+    if mode == 'H':
+        for o in new:
+            o['note'] = ((o.get('note') or '') + ' [about the baseline rule: ' + reason + ']').strip()
+        ctx.trusted.append('baseline rule coq/C12/baseline/IncidenceRule.v.txt (call flags, sign clamp) as a hand model: '
+                           + reason + '; tied by the correspondence only')
+    ctx.obligations.extend(new)
+    ctx.notes['tie_rule'] = ('T (call flags and sign clamp of calculate_normal_incidence_matrix re-translated from the '
+                             'tree under test)' if mode == 'T' else
+                             'H (%s; baseline rule + correspondence on the signs)' % reason)
+    ctx.log('rule tie:', ctx.notes['tie_rule'][:160])
+
+
+def extra_props(ctx, props_rel):
+    """a further props file (additive theorems): its obligations are appended; a file that does not build is
+    recorded as undischarged obligations, never as a violation of its own"""
+    keep, cmd = ctx.obligations[:], getattr(ctx, 'checker_cmd', None)
+    del ctx.obligations[:]
+    try:
+        ctx.build_props(props_rel, scan_dirs=[lib.COQ / 'C12'])
+        c10.fix_obligations(ctx)
+    finally:
+        new = ctx.obligations[:]
+        ctx.obligations[:] = keep + new
+        if cmd is not None:
+            ctx.checker_cmd = cmd + '; the same for ' + props_rel
+
+
+def tet_hypotheses(ctx, cases):
+    """the primitive hypotheses of C12_tet_mesh_cells_meet_in_faces (all_tets, conn_nodup) and its conclusion
+    evaluated inside Coq on the generated tet meshes"""
+    tets = [c for c in cases if c['valid'] and not c.get('skip_coq') and set(c['blocks']) == {'tet'}][:60]
+    if not tets:
+        return
+    txt = list(HEADER) + ['From FV.C12 Require Import ProofsConform.']
+    items = []
+    for c in tets:
+        txt.append(f'Definition m{c["id"]} : mesh := {c10.mesh_literal(c)}.')
+        items.append(f'({c["id"]}%nat, all_tets m{c["id"]} && conn_nodup m{c["id"]} && cells_meet_in_faces m{c["id"]})')
+    txt.append(f'Definition allr : list (nat * bool) := {lib.coq_list(items)}.')
+    txt.append('Goal True. idtac "@@ failing". Abort.')
+    txt.append('Eval vm_compute in map fst (filter (fun c => negb (snd c)) allr).')
+    rc, out, err = ctx.coq_eval('TetHyp', '\n'.join(txt) + '\n')
+    bad = None if rc != 0 else [int(x) for x in re.findall(r'\d+', lib.parse_marked(out).get('failing', '').split(': list')[0])]
+    ctx.notes['tet_conformity_hypotheses'] = {'tet_meshes': len(tets), 'hypotheses_false_on': bad}
+
+
 def main(ctx):
     ctx.rule = ('lattice assemblies (<=3x3x3 cells) of hexahedra and/or Kuhn tetrahedra (partial cells, random '
                 'occupancy = L-shapes, voids, several components), optionally warped (frustum maps keep faces '
@@ -571,6 +671,7 @@ def main(ctx):
                 'interior facet; distinct = distinct (nodes, blocks)')
     ctx.trusted += [
         'translator translate/c10_tables.py (face tables, shared with C10)',
+        'translator translate/c12_incidence.py (call flags and sign clamp of calculate_normal_incidence_matrix)',
         'hand model coq/C12/Model.v of to_facets/remove_duplicates/relative incidence/sign, pinned by the '
         'correspondence check (np.unique first-occurrence order, scipy.sparse products modelled)',
         'harness glue: COO triples sorted, floats converted with float.as_integer_ratio',
@@ -642,6 +743,15 @@ def main(ctx):
         for n in lib.theorem_names(lib.COQ / 'C12' / 'Props.v'):
             ctx.obligations.append({'name': n, 'discharged': False, 'assumptions': [],
                                     'note': 'translator failed closed, no baseline'})
+    if model_ok:
+        try:
+            tie_rule(ctx)
+        except Exception as e:          # noqa  (additive tie: never turns a green run red)
+            ctx.notes['tie_rule'] = 'unavailable (%s: %s)' % (type(e).__name__, e)
+        try:
+            extra_props(ctx, 'C12/PropsConform.v')
+        except Exception as e:          # noqa
+            ctx.notes['props_conform'] = 'unavailable (%s: %s)' % (type(e).__name__, e)
 
     cases = []
     cdir = lib.VERIF / 'corpus' / PID
@@ -699,6 +809,10 @@ def main(ctx):
     if model_ok:
         coq_cases = [c for c in cases if not c.get('skip_coq')]
         failing = run_coq_cases(ctx, coq_cases, res, 'Corr')
+        try:
+            tet_hypotheses(ctx, cases)
+        except Exception as e:          # noqa
+            ctx.notes['tet_conformity_hypotheses'] = 'unavailable (%s: %s)' % (type(e).__name__, e)
         for attempt in range(3):
             broken = [c for c in coq_cases if c['id'] in failing and failing[c['id']] is None]
             if not broken:
